@@ -39,6 +39,136 @@ package freelist
 //@   witness [added] wr := old(len(t.readonlyTXIDs))
 //@   modifies t.readonlyTXIDs, allelems("common.Txid")
 
+//@ func (*shared).RemoveReadonlyTXID
+//@   props C09 C10 C02
+//@   ensures [len] len(t.readonlyTXIDs) == old(len(t.readonlyTXIDs)) - (old(isreader(t, tid)) ? 1 : 0)
+//@   ensures [kept] forall r common.Txid :: r != tid && old(isreader(t, r)) ==> isreader(t, r)
+//@   ensures [nonew] forall r common.Txid :: isreader(t, r) ==> old(isreader(t, r))
+//@   modifies t.readonlyTXIDs, elems(t.readonlyTXIDs)
+//@   loop 0 invariant [notfound] forall j int :: 0 <= j && j <= rangeindex ==> t.readonlyTXIDs[j] != tid
+//@   loop 0 invariant [same] len(t.readonlyTXIDs) == old(len(t.readonlyTXIDs)) && arrayof(t.readonlyTXIDs) == old(arrayof(t.readonlyTXIDs)) && offof(t.readonlyTXIDs) == old(offof(t.readonlyTXIDs))
+//@   loop 0 invariant [sameelems] forall j int :: 0 <= j && j < len(t.readonlyTXIDs) ==> t.readonlyTXIDs[j] == old(t.readonlyTXIDs[j])
+
+//@ func (*shared).release
+//@   props C09 C10 C02
+//@   requires t.pending != nil && (forall tid common.Txid :: has(t.pending, tid) ==> t.pending[tid] != nil)
+//@   ensures [removed] forall tid common.Txid :: has(t.pending, tid) == (old(has(t.pending, tid)) && tid > txid)
+//@   ensures [keptobj] forall tid common.Txid :: has(t.pending, tid) ==> t.pending[tid] == old(t.pending[tid])
+//@   ensures [safe] forall p common.Pgid :: gfree[ifaceref(t.Interface)][p] && !old(gfree[ifaceref(t.Interface)][p]) ==> (exists wt common.Txid :: wt <= txid && old(inpend(t, wt, p)))
+//@   ensures [complete] forall tid common.Txid, j int :: tid <= txid && old(has(t.pending, tid)) && 0 <= j && j < old(len(t.pending[tid].ids)) ==> gfree[ifaceref(t.Interface)][old(t.pending[tid].ids[j])]
+//@   ensures [freekept] forall p common.Pgid :: old(gfree[ifaceref(t.Interface)][p]) ==> gfree[ifaceref(t.Interface)][p]
+//@   ensures [rep] old(reppend(t)) ==> reppend(t)
+//@   ensures [sep] old(seppend(t)) ==> seppend(t)
+//@   modifies gfree, mapof(t.pending), all("array.ids"), all("hashMap.freePagesCount"), allmaps("uint64", "freelist.pidSet"), allmaps("common.Pgid", "uint64")
+//@   loop 0 invariant [dom] forall tid common.Txid :: has(t.pending, tid) == (old(has(t.pending, tid)) && !(visited(tid) && tid <= txid))
+//@   loop 0 invariant [vals] forall tid common.Txid :: old(has(t.pending, tid)) ==> t.pending[tid] == old(t.pending[tid])
+//@   loop 0 invariant [vis] forall tid common.Txid :: visited(tid) ==> old(has(t.pending, tid))
+//@   loop 0 invariant [msafe] forall k int :: 0 <= k && k < len(m) ==> (let p := m[k] in (exists wt common.Txid :: wt <= txid && old(inpend(t, wt, p))))
+//@   loop 0 invariant [mcomplete] forall tid common.Txid, j int :: visited(tid) && tid <= txid && 0 <= j && j < old(len(t.pending[tid].ids)) ==> inids(m, old(t.pending[tid].ids[j]))
+//@   loop 0 invariant [mfresh] fresh(arrayof(m)) && len(m) >= 0
+//@   loop 0 invariant [same] sameheap("txPending.ids") && gfree == old(gfree) && t.Interface == old(t.Interface)
+//@   loop 0 invariant [oldelems] sameelems("common.Pgid")
+
+// Representation invariant of the pending lists, stated over two uninterpreted functions: galloc(p) is the
+// transaction that allocated page p (0: unknown / before the oldest record), gpend(p) the transaction that
+// freed it. A contract that requires reppend for arbitrary galloc/gpend and ensures it again proves that the
+// parallel slices ids/alloctx stay paired and that no page changes its pending transaction.
+//@ uninterp func galloc(p common.Pgid) common.Txid
+//@ uninterp func gpend(p common.Pgid) common.Txid
+//@ pure func reptxp(x *txPending, tid common.Txid) bool = x != nil && len(x.ids) == len(x.alloctx) && (forall k int :: 0 <= k && k < len(x.ids) ==> x.alloctx[k] == galloc(x.ids[k]) && gpend(x.ids[k]) == tid)
+//@ pure func reppend(t *shared) bool = t.pending != nil && (forall tid common.Txid :: has(t.pending, tid) ==> reptxp(t.pending[tid], tid))
+//@ pure func seppend(t *shared) bool = (forall a common.Txid, b common.Txid :: a != b && has(t.pending, a) && has(t.pending, b) ==> t.pending[a] != t.pending[b] && (len(t.pending[a].ids) == 0 || len(t.pending[b].ids) == 0 || (arrayof(t.pending[a].ids) != arrayof(t.pending[b].ids) && arrayof(t.pending[a].alloctx) != arrayof(t.pending[b].alloctx)))) && (forall a common.Txid :: has(t.pending, a) ==> len(t.pending[a].ids) == 0 || arrayof(t.pending[a].alloctx) != arrayof(t.readonlyTXIDs))
+//@ pure func readerssame(t *shared) bool = len(t.readonlyTXIDs) == old(len(t.readonlyTXIDs)) && arrayof(t.readonlyTXIDs) == old(arrayof(t.readonlyTXIDs)) && offof(t.readonlyTXIDs) == old(offof(t.readonlyTXIDs)) && samerow(t.readonlyTXIDs)
+
+//@ func (*shared).releaseRange
+//@   props C09 C02 C10
+//@   requires reppend(t) && seppend(t)
+//@   ensures [rep] reppend(t)
+//@   ensures [sep] seppend(t)
+//@   ensures [safe] forall p common.Pgid :: gfree[ifaceref(t.Interface)][p] && !old(gfree[ifaceref(t.Interface)][p]) ==> begin <= galloc(p) && galloc(p) <= end && begin <= gpend(p) && gpend(p) <= end
+//@   ensures [freekept] forall p common.Pgid :: old(gfree[ifaceref(t.Interface)][p]) ==> gfree[ifaceref(t.Interface)][p]
+//@   ensures [dom] forall tid common.Txid :: has(t.pending, tid) ==> old(has(t.pending, tid)) && t.pending[tid] == old(t.pending[tid])
+//@   ensures [outside] forall tid common.Txid :: (tid < begin || tid > end) && old(has(t.pending, tid)) ==> has(t.pending, tid)
+//@   ensures [readers] readerssame(t)
+//@   modifies gfree, mapof(t.pending), all("txPending.ids"), all("txPending.alloctx"), all("txPending.lastReleaseBegin"), allelems("common.Pgid"), allelems("common.Txid"), all("array.ids"), all("hashMap.freePagesCount"), allmaps("uint64", "freelist.pidSet"), allmaps("common.Pgid", "uint64")
+//@   loop 0 invariant [rep] reppend(t)
+//@   loop 0 invariant [sep] seppend(t)
+//@   loop 0 invariant [dom] forall tid common.Txid :: has(t.pending, tid) ==> old(has(t.pending, tid)) && t.pending[tid] == old(t.pending[tid])
+//@   loop 0 invariant [outside] forall tid common.Txid :: (tid < begin || tid > end) && old(has(t.pending, tid)) ==> has(t.pending, tid)
+//@   loop 0 invariant [msafe] forall k int :: 0 <= k && k < len(m) ==> begin <= galloc(m[k]) && galloc(m[k]) <= end && begin <= gpend(m[k]) && gpend(m[k]) <= end
+//@   loop 0 invariant [mfresh] fresh(arrayof(m)) && len(m) >= 0
+//@   loop 0 invariant [alloc] forall tid common.Txid :: has(t.pending, tid) ==> allocated(arrayof(t.pending[tid].ids)) && allocated(arrayof(t.pending[tid].alloctx))
+//@   loop 0 invariant [ghost] gfree == old(gfree) && t.Interface == old(t.Interface) && t.pending == old(t.pending)
+//@   loop 0 invariant [readers] readerssame(t)
+//@   loop 1 invariant [i] 0 <= i && i <= len(txp.ids)
+//@   loop 1 invariant [rep] reppend(t)
+//@   loop 1 invariant [sep] seppend(t)
+//@   loop 1 invariant [msafe] forall k int :: 0 <= k && k < len(m) ==> begin <= galloc(m[k]) && galloc(m[k]) <= end && begin <= gpend(m[k]) && gpend(m[k]) <= end
+//@   loop 1 invariant [mfresh] fresh(arrayof(m)) && len(m) >= 0
+//@   loop 1 invariant [alloc] forall tid common.Txid :: has(t.pending, tid) ==> allocated(arrayof(t.pending[tid].ids)) && allocated(arrayof(t.pending[tid].alloctx))
+//@   loop 1 invariant [readers] readerssame(t)
+//@   loop 1 invariant [cur] begin <= tid && tid <= end && has(t.pending, tid) && t.pending[tid] == txp
+
+//@ func txIDx.Less
+//@   props C09 C02
+//@   requires 0 <= i && i < len(t) && 0 <= j && j < len(t)
+//@   ensures result == (t[i] < t[j])
+//@   modifies nothing
+
+// The safety theorem of the allocator's release rule (C02/C09): a page that becomes free was freed by a
+// transaction (gpend) and allocated by a transaction (galloc, 0 = unknown) such that NO registered reader r
+// has galloc(p) <= r < gpend(p), i.e. no registered reader's snapshot can contain it.
+//@ func (*shared).ReleasePendingPages
+//@   props C09 C02 C10
+//@   requires reppend(t) && seppend(t)
+//@   requires forall r common.Txid :: isreader(t, r) ==> r < 18446744073709551615
+//@   ensures [rep] reppend(t) && seppend(t)
+//@   ensures [safe] forall p common.Pgid, r common.Txid :: gfree[ifaceref(t.Interface)][p] && !old(gfree[ifaceref(t.Interface)][p]) && old(isreader(t, r)) ==> !(galloc(p) <= r && r < gpend(p))
+//@   ensures [freekept] forall p common.Pgid :: old(gfree[ifaceref(t.Interface)][p]) ==> gfree[ifaceref(t.Interface)][p]
+//@   ensures [readers] len(t.readonlyTXIDs) == old(len(t.readonlyTXIDs)) && (forall r common.Txid :: isreader(t, r) ==> old(isreader(t, r))) && (forall r common.Txid :: old(isreader(t, r)) ==> isreader(t, r))
+//@   modifies gfree, mapof(t.pending), all("txPending.ids"), all("txPending.alloctx"), all("txPending.lastReleaseBegin"), allelems("common.Pgid"), allelems("common.Txid"), all("array.ids"), all("hashMap.freePagesCount"), allmaps("uint64", "freelist.pidSet"), allmaps("common.Pgid", "uint64")
+//@   loop 0 invariant [rep] reppend(t) && seppend(t)
+//@   loop 0 invariant [hdr] t.Interface == old(t.Interface) && loopsame(t.readonlyTXIDs) && len(t.readonlyTXIDs) == old(len(t.readonlyTXIDs))
+//@   loop 0 invariant [idx] rangeindex < len(t.readonlyTXIDs)
+//@   loop 0 invariant [sorted] forall a int, b int :: 0 <= a && a <= b && b < len(t.readonlyTXIDs) ==> t.readonlyTXIDs[a] <= t.readonlyTXIDs[b]
+//@   loop 0 invariant [bound] forall a int :: 0 <= a && a < len(t.readonlyTXIDs) ==> t.readonlyTXIDs[a] < 18446744073709551615
+//@   loop 0 invariant [perm1] forall a int :: 0 <= a && a < entry(len(t.readonlyTXIDs)) ==> (let r := entry(t.readonlyTXIDs[a]) in old(isreader(t, r)))
+//@   loop 0 invariant [perm2] forall a int :: 0 <= a && a < old(len(t.readonlyTXIDs)) ==> (let r := old(t.readonlyTXIDs[a]) in entry(isreader(t, r)))
+//@   loop 0 invariant [minid] (rangeindex == 0-1 ==> minid == (len(t.readonlyTXIDs) > 0 ? t.readonlyTXIDs[0] : 18446744073709551615)) && (rangeindex >= 0 ==> minid == t.readonlyTXIDs[rangeindex] + 1)
+//@   loop 0 invariant [safe] forall p common.Pgid, a int :: gfree[ifaceref(t.Interface)][p] && !old(gfree[ifaceref(t.Interface)][p]) && 0 <= a && a < len(t.readonlyTXIDs) ==> !(galloc(p) <= t.readonlyTXIDs[a] && t.readonlyTXIDs[a] < gpend(p))
+//@   loop 0 invariant [freekept] forall p common.Pgid :: old(gfree[ifaceref(t.Interface)][p]) ==> gfree[ifaceref(t.Interface)][p]
+
+// Rollback(txid) undoes the Free calls of txid: its pages leave the cache, the allocation record of every
+// page whose allocating transaction is known is restored, the pending entry disappears, and the allocation
+// records made by txid itself are dropped.
+//@ func (*shared).Rollback
+//@   props C09 C08
+//@   requires t.pending != nil && t.cache != nil && t.allocs != nil
+//@   requires has(t.pending, txid) ==> reptxp(t.pending[txid], txid)
+//@   requires txid >= 1
+//@   panics when has(t.pending, txid) && (exists k int :: 0 <= k && k < len(t.pending[txid].ids) && t.pending[txid].alloctx[k] == txid)
+//@   ensures [nopend] !has(t.pending, txid)
+//@   ensures [otherpend] forall tid common.Txid :: tid != txid ==> has(t.pending, tid) == old(has(t.pending, tid)) && t.pending[tid] == old(t.pending[tid])
+//@   ensures [uncached] old(has(t.pending, txid)) ==> forall k int :: 0 <= k && k < old(len(t.pending[txid].ids)) ==> !has(t.cache, old(t.pending[txid].ids[k]))
+//@   ensures [cachekept] forall p common.Pgid :: has(t.cache, p) ==> old(has(t.cache, p))
+//@   ensures [cacheothers] forall p common.Pgid :: old(has(t.cache, p)) && !(old(has(t.pending, txid)) && old(inids(t.pending[txid].ids, p))) ==> has(t.cache, p)
+//@   ensures [restored] old(has(t.pending, txid)) ==> forall k int :: 0 <= k && k < old(len(t.pending[txid].ids)) && old(t.pending[txid].alloctx[k]) != 0 ==> has(t.allocs, old(t.pending[txid].ids[k])) && t.allocs[old(t.pending[txid].ids[k])] == old(t.pending[txid].alloctx[k])
+//@   ensures [noself] old(has(t.pending, txid)) ==> forall p common.Pgid :: has(t.allocs, p) ==> t.allocs[p] != txid
+//@   ensures [allocskept] forall p common.Pgid :: old(has(t.allocs, p)) && old(t.allocs[p]) != txid && !(old(has(t.pending, txid)) && old(inids(t.pending[txid].ids, p))) ==> has(t.allocs, p) && t.allocs[p] == old(t.allocs[p])
+//@   ensures [noabsent] !old(has(t.pending, txid)) ==> sameheap("shared.cache") && (forall p common.Pgid :: has(t.cache, p) == old(has(t.cache, p))) && (forall p common.Pgid :: has(t.allocs, p) == old(has(t.allocs, p)))
+//@   modifies mapof(t.pending), mapof(t.cache), mapof(t.allocs)
+//@   loop 0 invariant [idx] rangeindex < len(txp.ids) && txp == old(t.pending[txid]) && old(has(t.pending, txid)) && has(t.pending, txid) && t.pending[txid] == txp
+//@   loop 0 invariant [noself] forall k int :: 0 <= k && k <= rangeindex ==> txp.alloctx[k] != txid
+//@   loop 0 invariant [uncached] forall k int :: 0 <= k && k <= rangeindex ==> !has(t.cache, txp.ids[k])
+//@   loop 0 invariant [cachekept] forall p common.Pgid :: has(t.cache, p) ==> old(has(t.cache, p))
+//@   loop 0 invariant [cacheothers] forall p common.Pgid :: old(has(t.cache, p)) && !inids(txp.ids, p) ==> has(t.cache, p)
+//@   loop 0 invariant [restored] forall k int :: 0 <= k && k <= rangeindex && txp.alloctx[k] != 0 ==> has(t.allocs, txp.ids[k]) && t.allocs[txp.ids[k]] == txp.alloctx[k]
+//@   loop 0 invariant [allocskept] forall p common.Pgid :: old(has(t.allocs, p)) && !inids(txp.ids, p) ==> has(t.allocs, p) && t.allocs[p] == old(t.allocs[p])
+//@   loop 0 invariant [pend] forall tid common.Txid :: has(t.pending, tid) == old(has(t.pending, tid)) && t.pending[tid] == old(t.pending[tid])
+//@   loop 1 invariant [restored] forall k int :: 0 <= k && k < len(txp.ids) && txp.alloctx[k] != 0 ==> has(t.allocs, txp.ids[k]) && t.allocs[txp.ids[k]] == txp.alloctx[k]
+//@   loop 1 invariant [allocskept] forall p common.Pgid :: old(has(t.allocs, p)) && old(t.allocs[p]) != txid && !inids(txp.ids, p) ==> has(t.allocs, p) && t.allocs[p] == old(t.allocs[p])
+//@   loop 1 invariant [progress] forall p common.Pgid :: visited(p) && has(t.allocs, p) ==> t.allocs[p] != txid
+
 //@ func (*shared).Free
 //@   props C09 C06 C07 C01
 //@   requires t.pending != nil && t.cache != nil && t.allocs != nil
@@ -114,6 +244,10 @@ package freelist
 //@ func Interface.Free
 //@   requires p != nil
 //@   modifies allmaps("common.Txid", "*txPending"), allmaps("common.Pgid", "common.Txid"), allmaps("common.Pgid", "struct{}"), all("txPending.ids"), all("txPending.alloctx"), all("txPending.lastReleaseBegin"), allelems("common.Pgid"), allelems("common.Txid")
+
+//@ func Interface.mergeSpans
+//@   ensures [merged] forall p common.Pgid :: gfree[ifaceref(self)][p] == (old(gfree[ifaceref(self)][p]) || old(inids(ids, p)))
+//@   modifies gfree, elems(ids), all("array.ids"), all("hashMap.freePagesCount"), allmaps("uint64", "freelist.pidSet"), allmaps("common.Pgid", "uint64")
 
 //@ func Interface.Write
 //@   requires page != nil
